@@ -18,7 +18,8 @@ def heads(*hs):
 
 class Job:
     def __init__(self, family, quick, thorough, size=0, extra=(), fsets=("default",), fsets_thorough=None,
-                 relevant=None, nontrivial=None, timeout=600, label=None, size_thorough=None, needs_bins=False, cap=None):
+                 relevant=None, nontrivial=None, timeout=600, label=None, size_thorough=None, needs_bins=False, cap=None, chunk_min=250):
+        self.chunk_min = chunk_min  # smallest chunk worth a process of its own (1-2 for expensive cases)
         self.needs_bins = needs_bins
         self.cap = cap  # upper bound of cases per run (expensive cases: the drift / extended-search factors are capped)
         self.family = family
@@ -73,8 +74,8 @@ PROPS["C06"] = dict(
           Job("persist", 400, 10000, size=5, size_thorough=6, relevant=heads("pop", "pjson", "prebuild", "pfinish", "wfcheck"),
               nontrivial=lambda st: int(st.get("trips", 0)) >= 1 and int(st.get("nodes", 0)) >= 3, label="reimport"),
           Job("adf", 300, 10000, size=6, extra=("sem",), relevant=heads("adopt", "adump", "wfcheck"), nontrivial=lambda st: int(st.get("nodes", 0)) >= 5, label="bridge"),
-          Job("bdd", 2, 24, size=16, size_thorough=18, extra=("big",), relevant=heads(*OPS, "alltt", "dump", "wfcheck"),
-              nontrivial=lambda st: int(st.get("memo", 0)) > 65536, label="huge-stores", timeout=1800, cap=12)],
+          Job("bdd", 2, 28, size=16, size_thorough=16, extra=("big",), relevant=heads(*OPS, "alltt", "dump", "wfcheck"),
+              nontrivial=lambda st: int(st.get("memo", 0)) > 65536, label="huge-stores", timeout=1800, cap=12, chunk_min=1)],
     rule="random operation sequences (3-45 ops over 2-6 variables: var/const/not/and/or/imp/iff/xor/restrict on earlier results) on one shared Bdd; "
          "after each sequence the real node table is dumped and checked by the verified wfCheck, handle equality of ALL issued handles is compared with "
          "truth-table equality, and the table is compared index by index with the model's; non-trivial = distinct sequence creating >= 3 inner nodes",
@@ -90,8 +91,8 @@ PROPS["C07"] = dict(
     technique="Lean 4 proof (refinement of an abstract Boolean-function spec by the memoised ite/restrict store) + correspondence check",
     jobs=[Job("bdd", 1500, 60000, size=6, size_thorough=7,
               relevant=heads(*OPS, "alltt", "dump"), nontrivial=nt_bdd),
-          Job("bdd", 2, 24, size=16, size_thorough=18, extra=("big",), relevant=heads(*OPS, "alltt", "dump"),
-              nontrivial=lambda st: int(st.get("memo", 0)) > 65536, label="huge-stores", timeout=1800, cap=12)],
+          Job("bdd", 2, 28, size=16, size_thorough=16, extra=("big",), relevant=heads(*OPS, "alltt", "dump"),
+              nontrivial=lambda st: int(st.get("memo", 0)) > 65536, label="huge-stores", timeout=1800, cap=12, chunk_min=1)],
     rule="same sequences as C06; after every operation the truth table obtained by walking the REAL node table from the returned handle is compared with the "
          "specification's truth table (TT layer, independent of diagrams) and the handle with the proved model's handle; at the end every earlier handle is re-evaluated; "
          "non-trivial = distinct sequence creating >= 3 inner nodes",
@@ -149,13 +150,16 @@ PROPS["C01"] = dict(
 PROPS["C02"] = dict(
     level_text="Machine-checked proof (Lean 4) for the CONCRETE enumeration completeAll (the function the driver runs handle for handle against Adf::complete): for every well-formed store and valid "
                "conditions, the listed interpretations are Nodup, a three-valued w is listed iff it has the right length and is a fixpoint of the consequence operator, and the first one is the "
-               "grounded interpretation (C02.complete_exact; the loop keeps the store well formed: complete_store). Ingredients: the short-circuiting store-threading filter accepts a vector iff its "
+               "grounded interpretation (C02.complete_exact; the loop keeps the store well formed: complete_store); the SAME three facts for the biodivine back-end's own enumeration (model of "
+               "adfbiodivine.rs over any library that represents Boolean functions faithfully: C02.biodivine_complete_exact, with the ideal-function and the truth-table instance) and, from the TEXT of "
+               "a file with facts in any order, for from_parser followed by the enumeration (C01.complete_stable_from_text). Ingredients: the short-circuiting store-threading filter accepts a vector iff its "
                "decided part is a fixpoint, for every lawful back-end (filter_iff_fixpoint); the three-valued iterator enumerates every refinement once, grounded first (C20); the grounded "
                "interpretation lies below every fixpoint (grounded_below_every_complete); pre-grounding preserves the complete interpretations (pregrounded_same_complete). Tie to the code: complete "
                "models on native / biodivine / hybrid / pre-grounded pipelines, order-exact and handle-exact against the model, multiset + first element against the brute-force specification "
                "(which is itself proved equal to the Prop-level semantics: SpecSound.completeAll_spec).",
-    level_note="Trusted: Lean kernel + standard axioms; biodivine modelled as a lawful restriction algebra (its answers are compared with the specification and, as T/F/u sequences, with the model); "
-               "correspondence differential (n <= 7).",
+    level_note="Trusted: Lean kernel + standard axioms; the external crate biodivine_lib_bdd is ASSUMED to represent Boolean functions faithfully (structure Bio.Lawful: every operation computes what its name says, is_true/is_false exact, "
+               "sat_valuations enumerates each satisfying valuation once); adfbiodivine.rs's own logic is modelled and proved; its answers are compared, in order, with that model run on truth tables "
+               "and with the specification; correspondence differential (n <= 7).",
     technique="Lean 4 proof (filter = fixpoint test; iterator theorem; least-fixpoint lower bound) + handle-exact correspondence + verified brute-force specification",
     jobs=[Job("adf", 1200, 40000, size=6, size_thorough=7, extra=("sem",),
               relevant=heads("build", "adopt", "complete", "adump", "wfcheck"), nontrivial=nt_adf),
@@ -168,11 +172,14 @@ PROPS["C03"] = dict(
                "interpretations are Nodup and v is listed iff it is a total fixpoint whose true statements are true in the least fixpoint of the reduct (C03.stable_exact, stablepre_exact); both variants "
                "emit the same list in the same order, so the pre-filter rejects no stable model (stablepre_same_answers); mapFalse denotes the reduct (mapFalse_is_reduct) and the code's test on one "
                "total candidate decides the definition from any well-formed store (test_decides_stability, check_iff_stable); pre-grounding preserves the least fixpoints of all reducts above the "
-               "grounded interpretation (pregrounded_same_reduct_lfp). Tie to the code: stable, stable_with_prefilter, both stable_bdd_representation variants and the biodivine variants incl. the "
+               "grounded interpretation (pregrounded_same_reduct_lfp). The biodivine back-end's stable(), its stable_bdd_representation with the on-demand and with the prepared rewriting, and the native "
+               "stable_bdd_representation(bio) are modelled over any faithful Boolean-function library and proved exact too (biodivine_stable_exact, biodivine_rewriting_on_demand_exact, "
+               "biodivine_rewriting_prepared_exact, native_rewriting_exact, rewritings_same_function); outside well-formed ADFs the prepared rewriting differs: on a file with TWO conditions for one "
+               "statement it conjoins both equivalences while from_parser keeps the last (prepared_rewriting_duplicate_counterexample, reproduced with the real binary). Tie to the code: stable, stable_with_prefilter, both stable_bdd_representation variants and the biodivine variants incl. the "
                "rewriting prepared at construction, on all pipelines and under permuted fact orders / sortings; handle/order exact where the order is the library's own, multisets where biodivine "
                "orders the candidates; all against the brute-force specification (proved: SpecSound.stable_spec).",
-    level_note="Trusted: Lean kernel + standard axioms; biodivine's sat_valuations assumed to enumerate each satisfying valuation once (observed); the rewriting variants' candidate generation (one big "
-               "biodivine formula) is not modelled, its results are judged by the specification; correspondence differential (n <= 7).",
+    level_note="Trusted: Lean kernel + standard axioms; the external crate biodivine_lib_bdd is assumed faithful (Bio.Lawful, incl. sat_valuations enumerating each satisfying valuation exactly once; observed by the runs); the candidate "
+               "ORDER of the rewriting variants is the library's, so they are compared as sets; correspondence differential (n <= 7).",
     technique="Lean 4 proof (reduct / least-fixpoint characterisation of the stability test, iterator theorem) + handle-exact correspondence + verified brute-force specification",
     jobs=[Job("adf", 1200, 40000, size=6, size_thorough=7, extra=("sem",),
               relevant=heads("build", "adopt", "stable", "stablepre", "stablerew", "stablerew2", "adump", "wfcheck"), nontrivial=nt_adf),
@@ -228,11 +235,13 @@ PROPS["C05"] = dict(
 )
 PROPS["C09"] = dict(
     level_text="Machine-checked proof (Lean 4): native compilation preserves the Boolean function of a formula of any size (C09.compile_one) and of the whole framework as from_parser builds it "
-               "(from_parser_correct); the bridge replay of an ordered dump through node yields handles with the dump's functions in any well-formed store (bridge_preserves); the pre-grounded "
+               "(from_parser_correct: conditions in declaration order; from_parser_any_order_correct / from_parser_any_fact_order: the real placement by formula_order for facts in ANY order, labels "
+               "resolved through the dict, a missing condition is bottom, the last of several wins, and it panics exactly on an undeclared label or atom: from_parser_panics_exactly, "
+               "from_parser_zero_or_several; from the TEXT: C01.grounded_from_text); the bridge replay of an ordered dump through node yields handles with the dump's functions in any well-formed store (bridge_preserves); the pre-grounded "
                "function is the condition with the grounded values substituted (pregrounded_function). VERIFIED VALIDATOR: isoCheck (validator_sound) is executed on every explored real store: "
                "after wfCheck of the dumped table, every statement's handle in the bridged / pre-grounded store is compared with the model's natively compiled handle (resp. grounded residual) "
                "without truth tables - so each compiled ADF is validated individually, also for 24-48 statements with deep formulas. Native stores are compared handle for handle with the model.",
-    level_note="Trusted: Lean kernel + standard axioms; biodivine's own compilation is outside (its dump is validated, not its algorithm); parser-to-formula step is C08's; correspondence differential.",
+    level_note="Trusted: Lean kernel + standard axioms; biodivine's own compilation is outside (its dump is validated, not its algorithm); the driver's placement of permuted facts is the proved FromParser.placeCompile; correspondence differential.",
     technique="Lean 4 proof (induction on formulas; dump replay invariant) + translation validation with a verified validator on every explored store + handle-exact correspondence",
     jobs=[Job("adf", 40, 1000, size=48, extra=("large",), relevant=heads("build", "adopt", "adump", "wfcheck"),
               nontrivial=lambda st: int(st.get("n", 0)) >= 20 and int(st.get("nodes", 0)) >= 50, label="adf-large"),
@@ -559,7 +568,7 @@ def run_job(prop, job, tier, seed, fset, factor=1, extended=False):
         return dict(mism=[], cases=0, records=0, nontrivial=set(), distinct=set(), samples=[], status="ok", dist={})
     # the run is cut into chunks (one generator seed per chunk, a function of seed and chunk number
     # only) which are executed in parallel: harness and driver are single-threaded processes
-    csize = min(CHUNK, max(250, -(-cases // PAR)))
+    csize = min(CHUNK, max(job.chunk_min, -(-cases // PAR)))
     plan = []
     done = 0
     k = 0
